@@ -21,7 +21,7 @@ BOUNDS = {
     'thorough': 'pre-emption bound up to 4',
 }
 ASSUMPTIONS = ['thread switches only at environment calls and lock operations']
-WITNESSES = {'quick': ['duplicate-rejected', 'catcher-reexecuted', 'threads-one-winner'], 'thorough': ['duplicate-rejected']}
+WITNESSES = {'quick': ['duplicate-rejected', 'catcher-reexecuted', 'threads-one-winner', 'rejected-reuse-then-first-call'], 'thorough': ['duplicate-rejected']}
 
 T = 'o/d/g'
 
@@ -36,6 +36,8 @@ def families(tier):
         {'name': 'threads-bf', 'params': {'P': 3, 'prefix': False}, 'weight': 3},
         {'name': 'threads-bf', 'params': {'P': 2, 'prefix': True}, 'weight': 3},
         {'name': 'threads-reuse', 'params': {'P': 2, 'prefix': True}, 'weight': 3},
+        # the contested file is not the first node of the cached subtree being taken over; afterwards an earlier node's key is called
+        {'name': 'threads-reuse', 'params': {'P': 2, 'prefix': True, 'deep': True}, 'weight': 3},
         {'name': 'threads-bf', 'params': {'P': 2, 'prefix': True, 'callers': True}, 'weight': 3},
         {'name': 'threads-sb', 'params': {'P': 2, 'prefix': True, 'callers': True}, 'weight': 3},
         {'name': 'threads-sb', 'params': {'P': 2, 'prefix': True, 'stale': True}, 'weight': 2},
@@ -180,6 +182,12 @@ def threads(eng, fam, P):
                 if fam == 'threads-reuse':
                     # the duplicate is implied: one caller goes through a subbuild whose (cached) subtree holds the file
                     if i == 0:
+                        if P.get('deep'):
+                            # the file is not the first node of the holder's (cached) subtree: a subbuild comes before it
+                            def holder(b2):
+                                holder_runs.append(1)
+                                return [b2.subbuild('first', first_fn), b2.build_file(path, 'f', lambda b3, fn: f(b3, fn))]
+                            return b.subbuild('holder', holder)
                         return b.subbuild('holder', lambda b2: b2.build_file(path, 'f', lambda b3, fn: f(b3, fn)))
                     return b.build_file(path, 'f', f)
                 return b.subbuild('k', f, 7)
@@ -188,12 +196,19 @@ def threads(eng, fam, P):
             except Exception as e:
                 return 'exc:' + exc_name(e)
 
+        holder_runs, first_runs = [], []
+
+        def first_fn(b2):
+            first_runs.append(1)
+            return ['first']
+
         if P['prefix']:
             # a committed sequential build first: the first occurrence of the threaded build can be served from the cache
             try:
                 FileBuilder.build(w.cache, 'n', lambda b: op(b, 0, []))
             except Exception:
                 raise PathAbort()
+        del holder_runs[:], first_runs[:]
         if P.get('stale'):
             # the committed record of the key has gone stale: both threads will find that out, and both go on to execute
             w.ext_write(w.p('probe'), eng.fresh_int('probecid'), eng.fresh_int('probemt', 0, 2 ** 62))
@@ -219,6 +234,13 @@ def threads(eng, fam, P):
                 s.close()
                 info['trace'] = s.trace[:8]
                 info['thread_exc'] = [exc_name(t.exc) if t.exc is not None else None for t in ts]
+            if P.get('deep'):
+                # afterwards the root itself calls the subbuild that precedes the file in the holder's subtree
+                info['holder_ran'], info['first_ran'] = bool(holder_runs), bool(first_runs)
+                try:
+                    info['late_first'] = b.subbuild('first', first_fn)
+                except RuntimeError:
+                    info['late_first'] = 'exc:RuntimeError'
             return [res.get(0), res.get(1)]
 
         sig = (fam, 'P%d' % P['P'], 'prefix' if P['prefix'] else 'fresh')
@@ -248,6 +270,12 @@ def threads(eng, fam, P):
             if calls:
                 n = w.fs.snapshot(w.root).get(path)
                 eng.check('C08.winner-output-content', L.eq(n[2], contents[calls[0]]), sig)
+        if P.get('deep') and v[0] == 'exc:RuntimeError' and not info.get('holder_ran') and not info.get('first_ran'):
+            # the holder was rejected while its cached record was being taken over (its function never ran): the rejected
+            # attempt has no effect, so the first real call of a key inside that record is not a duplicate
+            eng.check('C08.rejected-reuse-left-claims', isinstance(info.get('late_first'), list), sig + ('late-first',),
+                      info={'late call of first': repr(info.get('late_first')), 'results': repr(v), 'schedule': info.get('trace')})
+            eng.witness('rejected-reuse-then-first-call')
         if P.get('callers') and rej:
             # the caller that caught the rejection is never served from the cache: alone in the next build it is
             # re-executed and its call succeeds
